@@ -1,6 +1,7 @@
 import MirosModel.Drive.Hsm
 import MirosModel.Drive.Queue
 import MirosModel.Conc.LockingDeque
+import MirosModel.Conc.LockingDequeSeq
 import MirosModel.Gen.Constants
 /-! Line protocol for the `LockingDeque` / consumer model.
 
@@ -73,5 +74,30 @@ def ldLine (toks : List Nat) : String :=
   let done := s.posters.all (fun p => p.posts.isEmpty) && s.inline.posts.isEmpty
   " | ".intercalate out ++
     s!" || dq={showEvs s.dq} tok={s.tok} unf={s.unfinished} disp={showEvs s.dispatched} displaced={showEvs s.displaced} cpc={showCpc s.cpc} done={if done then 1 else 0} err={if s.err then 1 else 0} enabled={enabledSet h.cfg s np}"
+
+/-- `lds alg cap clearAcks nOps (op sig uid)*` — op: 0 append 1 appendleft 2 pop 3 popleft 4 clear 5 len;
+clearAcks: 0/1, 9 = generated -/
+def ldsLine (toks : List Nat) : String :=
+  let p : P (Config × Bool × List SOp) := do
+    let algc ← nat
+    let cap ← nat
+    let ca ← nat
+    let n ← nat
+    let mut ops : List SOp := []
+    for _ in [0:n] do
+      let o ← nat; let sg ← nat; let uid ← nat
+      let op : SOp := if o = 0 then .append ⟨sg, uid⟩ else if o = 1 then .appendleft ⟨sg, uid⟩
+        else if o = 2 then .pop else if o = 3 then .popleft else if o = 4 then .clear else .len
+      ops := ops ++ [op]
+    let alg : Alg := if algc = 0 then .legacy else if algc = 1 then .tokenAfter else Miros.Gen.ldAlg
+    let acks := if ca = 9 then Miros.Gen.clearAcksEach else ca = 1
+    pure ({ alg := alg, cap := cap, refl := false, stopSig := 99, selfPosts := fun _ => [] }, acks, ops)
+  let ((c, acks, ops), _) := p.run toks
+  let rec go (s : Seq) : List SOp → List String → List String
+    | [], acc => acc
+    | o :: rest, acc =>
+      let (s', r) := seqStep c acks s o
+      go { s' with err := false } rest (acc ++ [s!"{r} dq={showEvs s'.dq} tok={s'.tok} unf={s'.unfinished}"])
+  " | ".intercalate (go seqInit ops [])
 
 end Miros.Drive
